@@ -141,7 +141,7 @@ func selftest(prop, repo, verif string, base map[string]string) map[string]inter
 		jobs = append(jobs, job{filepath.Base(filepath.Dir(v)), "variant", v})
 	}
 	results := make([]stCase, len(jobs))
-	sem := make(chan struct{}, 4)
+	sem := make(chan struct{}, 6)
 	var wg sync.WaitGroup
 	self, _ := os.Executable()
 	for i, j := range jobs {
